@@ -262,7 +262,8 @@ def _run(a, pid, tier, seed, t0):
             'rule': reg['rule'],
             'samples': samples,
             'exhaustive': bool(models) and not drift,
-            'exhaustive_scope': reg.get('exhaustive_scope', ''),
+            'exhaustive_scope': reg.get('exhaustive_scope') or ('the implementation-shaped models listed under coverage.models, each within the constants of its .cfg file '
+                                                                '(the scenario set executed on the code is a sample, except the enumerated DlisModel histories)' if models else ''),
             'models': models,
             'model_actions': {k: v for k, v in actions.items() if not k.endswith('.Init')},
             'model_drift': bool(drift), 'drift_cases': len(drift),
